@@ -366,7 +366,7 @@ pub fn run(cfg: &RunCfg) -> Report {
         "hangs are not detected by this oracle (a wall-clock watchdog around the whole check reports them as inconclusive, exit 2)".into(),
     ];
     let eps = entry_points();
-    let n = cfg.cases(400_000, 10_000_000);
+    let n = cfg.cases(2_000_000, 60_000_000);
     rep.absorb("c18_input", explore(cfg, "C18", n, input, |i: &Input, st| eval(i, &eps, st)));
     rep
 }
